@@ -160,6 +160,12 @@ H("faand", "c04_fabitn_check_n2", needs_segment=["fabitn_check"],
   what="aBit check: Ok => opened MAC == XOR of the own keys selected by the coefficient bits ^ x*delta, for every combination", bounds="n=2, 2 combinations, 3 authenticated bits, all values symbolic", functions=["mpc::faand::fabitn (step 3c/3d segment)", "mpc::faand::chunked_update_with_rbits::<u128>"], panic_prop="C08")
 H("faand", "c04_shared_rng_open_n2", needs_segment=["shared_rng_open"],
   what="coin tossing: Ok => the peer's decommitment was accepted by the commitment check; seed == xor of all contributions", bounds="n=2, all 32-byte contributions symbolic, BLAKE3 verdict arbitrary", functions=["mpc::faand::shared_rng (segment after the decommitment round)"], panic_prop="C08", stubs=["open_commitment -> arbitrary verdict (logged)", "ChaCha20Rng::from_seed(seed) -> seed (cpuid inline asm is not supported by Kani)"])
+for _nm, _seg, _b, _tier in (("c04_shared_rng_pairwise_commit_before_reveal_n2", "shared_rng_pairwise_order", "n=2, own index 0", "quick"), ("c04_shared_rng_pairwise_commit_before_reveal_n3", "shared_rng_pairwise_order", "n=3, own index 1", "thorough")):
+    H("faand", _nm, tier=_tier, needs_segment=[_seg],
+      what="coin toss, WHOLE function body with both message rounds as environment calls: the seed is revealed only after the commitment round has returned Ok (a failed round => Err, nothing revealed); what is revealed to a peer is what the commitment sent to that peer was computed from (own id appended); peer decommitments are looked at only after the own reveal; Ok => every peer's decommitment was checked against that peer's commitment and id, and opened",
+      bounds=_b + "; all 32-byte draws / peer seeds / peer commitments symbolic; success or failure of either round arbitrary; BLAKE3 = tag naming the call (commit) / arbitrary verdict per peer (open)",
+      functions=["mpc::faand::" + ("shared_rng_pairwise" if "pairwise" in _nm else "shared_rng") + " (whole body; awaited rounds -> time-stamped environment calls)"], panic_prop="C08",
+      stubs=["broadcast/unverified_broadcast/scatter(..).await -> CoinEnv method (records order and payload, arbitrary peer data, arbitrary Ok/Err)", "commit -> tag + remembered input", "open_commitment -> arbitrary verdict per peer, arguments compared with what that peer sent", "random() -> k-th of three arbitrary values", "ChaCha20Rng -> EnvSeed (cpuid inline asm is not supported by Kani)"])
 H("kos", "c04_kos_check", needs_segment=["kos_check"],
   what="KOS correlation check: Ok => (check ^ x*s) == (t0, t1) (KOSConsistencyCheckFailed otherwise), with the carry-less product an arbitrary value", bounds="all 128-bit blocks", functions=["ot_core::kos::Sender::send_setup (segment after the receive)"], panic_prop="C08", stubs=["Block::clmul -> arbitrary (lo, hi) (textual substitution)"])
 H("faand", "c04_beaver_check_n2", needs_segment=["beaver_check"],
@@ -432,13 +438,13 @@ PROPS["C03"] = dict(
 
 PROPS["C04"] = dict(
     level="model_checking",
-    level_text="Bounded model checking of the detection branches of preprocessing at the receiving party (aBit check, aShare step 3c bit validity, aShare step 3d MAC-sum check, leaky-AND XOR check, d-value MACs, Beaver d/e MACs, verified-broadcast echo comparison, KOS correlation check): Ok implies the checked relation, for every value a peer can send.",
-    level_note="Partial: detection branches only (n=2, n=3 for the broadcast), cut segments with BLAKE3 verdicts and the carry-less product arbitrary and the statistical parameter lowered to 2 inside the aShare segments. Not covered: commit-before-reveal and challenge-after-data orderings (message histories), that the commitments bind (hash), coin-toss openings. " + SEG,
+    level_text="Bounded model checking of the detection branches of preprocessing at the receiving party, plus the commit-before-reveal order of the pairwise coin toss (aBit check, aShare step 3c bit validity, aShare step 3d MAC-sum check, leaky-AND XOR check, d-value MACs, Beaver d/e MACs, verified-broadcast echo comparison, KOS correlation check): Ok implies the checked relation, for every value a peer can send.",
+    level_note="Partial: detection branches only (n=2, n=3 for the broadcast), cut segments with BLAKE3 verdicts and the carry-less product arbitrary and the statistical parameter lowered to 2 inside the aShare segments. Commit-before-reveal is covered for ONE place, the pairwise coin toss that seeds the OT sessions (whole function body, rounds as environment futures that separate sent from received; n=2 quick, n=3 thorough). Not covered: the same ordering in the multi-party coin toss (its whole-body cut exhausted memory), in aShare/LaAND, challenge-after-data and coin reuse (message histories across functions), that the commitments bind (hash). " + SEG,
     explanation="Segment harnesses over check_dvalue, fashare (3c, 3d), beaver_aand.",
-    outside="n=2; orderings over message histories and coin-toss reuse are outside the technique's reach.",
+    outside="n=2 (n=3 for the broadcast, one d-value variant and the thorough coin-toss variant); orderings other than the pairwise coin toss, and coin reuse, are outside.",
     assumptions=[FMT, TRACING, SEG, N2, "open_commitment(..) -> arbitrary bool inside the fashare_3d segment (textual substitution)", "RHO shadowed by a local const 2 inside the fashare segments"],
-    segments=["check_dvalue_tail", "fashare_3c", "fashare_3d", "beaver_check", "bcast_verify_tail", "flaand_tail", "fabitn_check", "kos_check", "shared_rng_open", "fpre_cheat_check"],
-    harnesses=hs("c04_check_dvalue_tail_n2_b3", "c04_check_dvalue_tail_n3_b2", "c07_fashare_3c_n2__c04", "c04_fashare_3d_n2", "c04_beaver_check_n2", "c04_bcast_verify_tail_n3", "c04_flaand_tail_n2", "c04_fabitn_check_n2", "c04_kos_check", "c04_shared_rng_open_n2", "c04_beaver_check_n4"),
+    segments=["check_dvalue_tail", "fashare_3c", "fashare_3d", "beaver_check", "bcast_verify_tail", "flaand_tail", "fabitn_check", "kos_check", "shared_rng_open", "shared_rng_pairwise_order", "fpre_cheat_check"],
+    harnesses=hs("c04_check_dvalue_tail_n2_b3", "c04_check_dvalue_tail_n3_b2", "c07_fashare_3c_n2__c04", "c04_fashare_3d_n2", "c04_beaver_check_n2", "c04_bcast_verify_tail_n3", "c04_flaand_tail_n2", "c04_fabitn_check_n2", "c04_kos_check", "c04_shared_rng_open_n2", "c04_beaver_check_n4", "c04_shared_rng_pairwise_commit_before_reveal_n2", "c04_shared_rng_pairwise_commit_before_reveal_n3"),
 )
 
 PROPS["C05"] = dict(
